@@ -17,6 +17,15 @@ for fn in sorted(glob.glob(os.path.join(VERIF, "sa", "claims.d", "*.json"))):
             if "note" in v and not v["note"].startswith("Trusted base"):
                 v["note"] = claims.TB + v["note"]
 
+import prereq  # noqa: E402
+for pid, lst in prereq.PREREQUISITES.items():
+    c = claims.CLAIMS.get(pid)
+    if c:
+        c["text"] = c["text"].rstrip() + " Prerequisites taken over from other rule modules (sa/prereq.py; labelled prerequisite_from in the evidence): " + \
+            "; ".join("%s - %s" % (pred.desc, reason) for (_, reason, pred) in lst) + "."
+        if "prerequisite" not in c["technique"]:
+            c["technique"] = c["technique"] + "; prerequisite rule instances of " + ", ".join(sorted({l for l, _, _ in lst})) + " (same analyses, run by this check)"
+
 props = {}
 with open(os.path.join(VERIF, "properties.jsonl")) as f:
     for line in f:
